@@ -212,6 +212,8 @@ class Binding(object):
         self.log = log            # optional callable(event_dict)
         self.wrap = wrap          # optional: (typename, fieldname, thunk, info) -> value (deferred execution)
         self.calls = []           # (typename, fieldname, oid, kwargs)
+        self.async_fields = set() # (typename, fieldname) served by coroutine resolvers
+        self.gates = None         # sched.Gates of the current asyncio run
         self._py = {}
         for t in self.s.types.values():
             if t.kind == "object":
@@ -266,6 +268,17 @@ class Binding(object):
                 return binding.wrap(typename, fieldname, lambda: binding._finish(obj, f, kwargs, info), info)
             return binding._finish(obj, f, kwargs, info)
 
+        async def aresolver(parent, context, info, **kwargs):
+            obj = binding.obj_of(parent)
+            if binding.log is not None:
+                binding.log({"ev": "resolver_start", "type": typename, "field": fieldname,
+                             "path": list(info.path), "kwargs": kwargs})
+            await binding.gates.wait(tuple(info.path))
+            return binding._finish(obj, f, kwargs, info)
+
+        if (typename, fieldname) in self.async_fields:
+            aresolver.__name__ = "aresolve_%s_%s" % (typename, fieldname)
+            return aresolver
         resolver.__name__ = "resolve_%s_%s" % (typename, fieldname)
         return resolver
 
